@@ -422,9 +422,10 @@ class Jacobian(probe.Probe):
         xp = sm.array_module
         zeros = xp.zeros_like(getattr(sm, self.probe))
         _variables = [var for var in self.variables if var != "magnitude"]
-        # retrieve jacobian arrays except for magnitude
+        # retrieve jacobian arrays except for magnitude (no partial yet: zero derivative)
+        order1 = getattr(sm, "order1", {})
         arrays = [
-            getattr(sm.order1[var], self.probe) if var in sm.order1 else zeros
+            getattr(order1[var], self.probe) if var in order1 else zeros
             for var in _variables
         ]
         if "magnitude" in self.variables:
@@ -464,6 +465,9 @@ class Hessian(probe.Probe):
         """return signal's Hessian"""
         xp = sm.array_module
         missing = xp.zeros_like(getattr(sm, self.probe))
+        # no partial yet (probe placed before the first differentiated operator): zero derivatives
+        order1 = getattr(sm, "order1", {})
+        order2 = getattr(sm, "order2", {})
 
         arrays = []
         for v1 in self.variables1:
@@ -471,22 +475,16 @@ class Hessian(probe.Probe):
             for v2 in self.variables2:
                 if "magnitude" == v1:
                     hess = (
-                        getattr(sm.order1[v2], self.probe)
-                        if v2 in sm.order1
-                        else missing
+                        getattr(order1[v2], self.probe) if v2 in order1 else missing
                     )
                 elif "magnitude" == v2:
                     hess = (
-                        getattr(sm.order1[v1], self.probe)
-                        if v1 in sm.order1
-                        else missing
+                        getattr(order1[v1], self.probe) if v1 in order1 else missing
                     )
                 else:
                     v12 = Pair(v1, v2)
                     hess = (
-                        getattr(sm.order2[v12], self.probe)
-                        if v12 in sm.order2
-                        else missing
+                        getattr(order2[v12], self.probe) if v12 in order2 else missing
                     )
 
                 arrays[-1].append(hess)
